@@ -11,7 +11,7 @@
     is [spq_laws]), every degree, every number of cells and of quadrature points. *)
 From Coq Require Import List Arith Lia ZArith QArith Qcanon Bool.
 Import ListNotations.
-From PGV Require Import Sums SplineModel SplineTheory SplineQc GalerkinModel GalerkinTheory GalerkinQc.
+From PGV Require Import Sums SplineModel SplineTheory SplineQc QuadTheory MarsdenTheory GalerkinModel GalerkinTheory GalerkinQc.
 
 (** band_eq_dense.  [gk_assemble] succeeds only if every point of cell c has span p + c (checked by
     the model: [gk_spans_ok]).  Then, for each of the five matrices, the entry (a, b) that
@@ -165,6 +165,66 @@ Theorem c14_func_path_eq_discrete_path (F : Type) (K : sp_ops F) (HK : sp_laws K
 Proof. exact (gk_func_path_eq_discrete_path F K HK). Qed.
 Print Assumptions c14_func_path_eq_discrete_path.
 
+(** dirichlet_value_zero.  The radial space of DiffEqSolver is ALWAYS the general clamped space (for a cubic_uniform
+    radial spline the constructor rebuilds BSplines(make_knots(breaks, 3, False), 3, False, False)), and phi is
+    evaluated with nu_eval_spline_1d on it.  On a clamped knot vector (C08: c08_clamped_end_eval) the solution
+    spline evaluates to 0 at a Dirichlet end. *)
+Theorem c14_dirichlet_value_zero (F : Type) (K : sp_ops F) (HK : sp_laws K) :
+  forall S lN uN m buf rhs c knots p,
+  ip_clamped F K knots p -> (1 <= p)%nat -> gka_nb F S = (length knots - p - 1)%nat ->
+  gk_solve_rhs F K S lN uN m buf rhs = SpOk c ->
+  (gk_memZ m lN = false -> sp_nu_eval_1d_scalar F K (sp_kn F K knots p) knots p c 0 = SpOk (sp0 K)) /\
+  (gk_memZ m uN = false ->
+   sp_nu_eval_1d_scalar F K (sp_kn F K knots (length knots - 1 - p)) knots p c 0 = SpOk (sp0 K)).
+Proof. exact (gk_dirichlet_value_zero F K HK). Qed.
+Print Assumptions c14_dirichlet_value_zero.
+
+(** manufactured solutions, algebraic core: a coefficient vector cu (zero on the Dirichlet sides) whose spline has the
+    values u0, derivative values u1 at the quadrature points, for which
+      (IBP) sum w (-A) u1 (B_a' r + B_a) = sum w A u2 B_a r   for every test function B_a that is an unknown, and
+      (EQ)  A u2 + B u1 + C u0 - m^2 D u0 = E rho             at every quadrature point,
+    IS the vector returned by the solver (it satisfies the mode's linear system, which has a unique solution).
+    (IBP) is the quadrature-level integration by parts: it follows from the exactness of the rule for the degree of the
+    integrands on every cell, the continuity of B_a and the vanishing of the boundary term A u' B_a r; it is a
+    hypothesis here, checked numerically by the harness through the manufactured cases. *)
+Theorem c14_manufactured_core (F : Type) (K : sp_ops F) (HK : sp_laws K) :
+  forall knots p nc nq pts wts mf At Bt Ct Dt Et S lN uN m buf rhot c (cu : nat -> F) (u0 u1 u2 : nat -> nat -> F),
+  gk_assemble F K knots p nc nq pts wts mf At Bt Ct Dt Et = SpOk S ->
+  gk_solve_mode_func F K S lN uN m buf nc nq pts wts mf rhot = SpOk c ->
+  (2 <= nc + p)%nat ->
+  (forall b, (b < gk_coeff_lo lN m \/ gk_coeff_hi (nc + p) uN m <= b)%nat -> cu b = sp0 K) ->
+  (forall c q, (c < nc)%nat -> (q < nq)%nat ->
+     Sums.sumn F (sp0 K) (spadd K) (nc + p) (fun b => spmul K (cu b) (gk_phi F K p (gka_tab F S) 0 b c q)) = u0 c q) ->
+  (forall c q, (c < nc)%nat -> (q < nq)%nat ->
+     Sums.sumn F (sp0 K) (spadd K) (nc + p) (fun b => spmul K (cu b) (gk_phi F K p (gka_tab F S) 1 b c q)) = u1 c q) ->
+  (forall a, (gk_coeff_lo lN m <= a < gk_coeff_hi (nc + p) uN m)%nat ->
+     Sums.sumn F (sp0 K) (spadd K) nc (fun c => Sums.sumn F (sp0 K) (spadd K) nq (fun q =>
+        spmul K (gk_Wf F K wts mf c q) (spmul K (spmul K (spopp K (gk_at F K At c q)) (u1 c q))
+          (spadd K (spmul K (gk_phi F K p (gka_tab F S) 1 a c q) (gk_at F K pts c q)) (gk_phi F K p (gka_tab F S) 0 a c q)))))
+     = Sums.sumn F (sp0 K) (spadd K) nc (fun c => Sums.sumn F (sp0 K) (spadd K) nq (fun q =>
+        spmul K (gk_Wf F K wts mf c q) (spmul K (spmul K (spmul K (gk_at F K At c q) (u2 c q))
+          (gk_phi F K p (gka_tab F S) 0 a c q)) (gk_at F K pts c q))))) ->
+  (forall c q, (c < nc)%nat -> (q < nq)%nat ->
+     spsub K (spadd K (spadd K (spmul K (gk_at F K At c q) (u2 c q)) (spmul K (gk_at F K Bt c q) (u1 c q)))
+                      (spmul K (gk_at F K Ct c q) (u0 c q)))
+             (spmul K (gk_msq F K m) (spmul K (gk_at F K Dt c q) (u0 c q)))
+     = spmul K (gk_at F K Et c q) (gk_at F K rhot c q)) ->
+  forall i, (i < nc + p)%nat -> nth i c (sp0 K) = cu i.
+Proof. exact (gk_manufactured_core F K HK). Qed.
+Print Assumptions c14_manufactured_core.
+
+(** for a polynomial of degree <= p the hypothesis "u0" above holds with cu = ip_poly_coeff (Marsden coefficients,
+    C08: c08_poly_spline): its spline takes the value of the polynomial at every quadrature point *)
+Theorem c14_poly_at_nodes (F : Type) (K : sp_ops F) (HK : sp_laws K) :
+  forall knots p nc nq pts wts mf At Bt Ct Dt Et Sv a c q,
+  gk_assemble F K knots p nc nq pts wts mf At Bt Ct Dt Et = SpOk Sv ->
+  ip_clamped F K knots p -> length knots = (nc + 2 * p + 1)%nat -> (length a <= S p)%nat ->
+  (c < nc)%nat -> (q < nq)%nat -> (c < length pts)%nat -> (q < length (nth c pts []))%nat ->
+  Sums.sumn F (sp0 K) (spadd K) (nc + p) (fun b => spmul K (ip_poly_coeff F K knots p a b) (gk_phi F K p (gka_tab F Sv) 0 b c q))
+  = ip_polyval F K a (gk_at F K pts c q).
+Proof. exact (gk_poly_at_nodes F K HK). Qed.
+Print Assumptions c14_poly_at_nodes.
+
 (* ------------------------------------------------------------------------------------------------ *)
 (** the executed instance *)
 Theorem c14_qc_laws : sp_laws spq_ops.
@@ -221,3 +281,15 @@ Example c14_ex_func_rhs_applies_E :
   /\ map spq_show c14_cd = map spq_show c14_cf
   /\ Qc_eq_bool (nth 1 c14_cd (Q2Qc 0)) (Q2Qc 0) = false.
 Proof. vm_compute. repeat split. Qed.
+
+(** the uniform-cubic fast path is NOT what DiffEqSolver evaluates with - and could not be: on that path
+    S(xmin) = (c_0 + 4 c_1 + c_2)/6 (C08: c08_cubic_end_eval), so a zero first coefficient does not make the value
+    vanish.  Coefficients (0, 1, 1, 1, 1) on [0,2], dx = 1, 2 cells: the uniform-cubic evaluator gives 5/6 at xmin, the
+    general evaluator on the clamped knots of the same breaks gives 0. *)
+Example c14_ex_cubic_path_end_value :
+  spq_show_res (spq_cu_eval_1d_scalar (c14q 0 1) [c14q 0 1; c14q 2 1; c14q 1 1; c14q 2 1] 3
+                  [c14q 0 1; c14q 1 1; c14q 1 1; c14q 1 1; c14q 1 1] 0) = SpOk (5%Z, 6%positive)
+  /\ spq_show_res (spq_nu_eval_1d_scalar (c14q 0 1)
+                  [c14q 0 1; c14q 0 1; c14q 0 1; c14q 0 1; c14q 1 1; c14q 2 1; c14q 2 1; c14q 2 1; c14q 2 1] 3
+                  [c14q 0 1; c14q 1 1; c14q 1 1; c14q 1 1; c14q 1 1] 0) = SpOk (0%Z, 1%positive).
+Proof. vm_compute. split; reflexivity. Qed.
